@@ -135,7 +135,9 @@ def contract_check(ctx, rep, mgr, sspec, tspec, excluded, exists, pats, inp, cls
             act = [bool(a) for a in act]
             Mt = tup(M)
             if Mt not in ref:
-                dis('invalid-matrix', dict(pin, x=x), {'M': Mt})
+                # an all -1 matrix is the imputers' "gave up" marker (bounded search exhausted)
+                rep.disagree('invalid-matrix', dict(inp, **dict(pin, x=x)), {'M': Mt},
+                             dict(cls, all_minus_one=bool(Mt) and all(v == -1 for v in Mt)))
                 continue
             if len(xi) != len(x) or any(v < 0 or v >= n for v, n in zip(xi, n_opts)):
                 dis('corrected-vector-out-of-range', dict(pin, x=x), {'xi': xi, 'n_opts': n_opts})
